@@ -68,6 +68,11 @@ def w_grid(case):
     try:
         ll = build_likelihood(case)
     except Exception as e:  # constructor refuses: nothing to evaluate
+        if case.get('perm') and isinstance(e, ValueError) and \
+                'increasing' in str(e):
+            # documented: times must be given in increasing order; only an object
+            # that WAS constructed has to be evaluable (and then correctly)
+            return {'transitions': 1, 'outcome': 'rejected:order', 'violations': []}
         return {'transitions': 1, 'outcome': 'rejected:' + type(e).__name__,
                 'violations': [{
                     'sub': 'construct', 'message': 'constructor rejected a valid '
@@ -95,7 +100,18 @@ def w_grid(case):
     pw = np.asarray(ll.compute_pointwise_ll(params.copy()), dtype=float)
     ntr += 1
     exp_flat = np.real(np.concatenate(exp_pw))
-    if pw.shape != exp_flat.shape or not tol.allclose(pw, exp_flat):
+    if case.get('perm') and tied and pw.shape == exp_flat.shape:
+        # measurements given in non-ascending order with tied times: the order
+        # among the tied ones is not defined -- compare per output as multisets
+        a, b, k0 = [], [], 0
+        for blk in exp_pw:
+            a.append(np.sort(pw[k0:k0 + len(blk)]))
+            b.append(np.sort(np.real(blk)))
+            k0 += len(blk)
+        pw_cmp, exp_cmp = np.concatenate(a), np.concatenate(b)
+    else:
+        pw_cmp, exp_cmp = pw, exp_flat
+    if pw.shape != exp_flat.shape or not tol.allclose(pw_cmp, exp_cmp):
         viol.append({'sub': 'pointwise', 'message': 'pointwise log-likelihoods are '
                      'not the per-measurement densities listed output by output '
                      'in time order', 'expected': exp_flat, 'observed': pw,
@@ -314,6 +330,28 @@ def build(tier, seed):
             for flat in (False, True):
                 grids.append(make_case([code], [t], 1, [0], seed, flat=flat,
                                        posterior=not flat))
+    # measurements handed over in non-ascending time order (reversed / rotated),
+    # one and two outputs
+    ms_p = multisets(lattice, 3)
+    for code in codes:
+        for t in ms_p:
+            if len(t) < 2:
+                continue
+            for perm in ('rev', 'rot'):
+                c = make_case([code], [t], 1, [0], seed)
+                c['perm'] = perm
+                for key in ('times', 'obs'):
+                    v = c[key][0]
+                    c[key] = [v[::-1] if perm == 'rev' else v[1:] + v[:1]]
+                grids.append(c)
+    for ems in (('G', 'CM'), ('LN', 'M')):
+        for t0 in ms_p[3::4]:
+            for t1 in ms_p[5::4]:
+                c = make_case(ems, [t0, t1], 2, [0, 1], seed)
+                c['perm'] = 'rev'
+                c['times'] = [t0[::-1], t1[1:] + t1[:1]]
+                c['obs'] = [c['obs'][0][::-1], c['obs'][1][1:] + c['obs'][1][:1]]
+                grids.append(c)
     # k = 2
     s2 = 2 if tier == 'quick' else 3
     ms = multisets(lattice, s2)
